@@ -1,7 +1,98 @@
 package main
 
-// Replay of counterexample models on the real code (in-package tests injected with -overlay).
+// Replay of counterexample models on the real code: an in-package Go test is injected with
+// `go test -overlay` (nothing is written into /repo). Each template under /verif/replay_templates
+// carries a small hand-written oracle taken from the property text; it is used only to confirm a
+// counterexample, never to pass a check.
+
+import (
+	"bytes"
+	"context"
+	"encoding/json"
+	"os"
+	"os/exec"
+	"path/filepath"
+	"strings"
+	"time"
+)
+
+func replayTemplateFor(verif, fnKey string) (string, string) {
+	// fnKey = "pkgname.RelName"; template file name = sanitized key + ".go"
+	p := filepath.Join(verif, "replay_templates", sanitize(fnKey)+".go")
+	if _, err := os.Stat(p); err == nil {
+		return p, fnKey[:strings.Index(fnKey, ".")]
+	}
+	return "", ""
+}
+
+var pkgDirs = map[string]string{"getoptions": ".", "option": "internal/option", "sliceiterator": "internal/sliceiterator", "help": "internal/help", "dag": "dag"}
 
 func tryReplay(e *Engine, o *Obligation, repo, verif string) (map[string]interface{}, bool) {
-	return nil, false
+	tmpl, pkg := replayTemplateFor(verif, o.Func)
+	if tmpl == "" {
+		return nil, false
+	}
+	dir, ok := pkgDirs[pkg]
+	if !ok {
+		return nil, false
+	}
+	work, err := os.MkdirTemp("", "govc-replay")
+	if err != nil {
+		return nil, false
+	}
+	defer os.RemoveAll(work)
+	model := parseModel(o.Model)
+	mj, _ := json.Marshal(model)
+	modelPath := filepath.Join(work, "model.json")
+	os.WriteFile(modelPath, mj, 0o644)
+	helper, err := os.ReadFile(filepath.Join(verif, "replay_templates", "_helper.go.txt"))
+	if err != nil {
+		return nil, false
+	}
+	body, err := os.ReadFile(tmpl)
+	if err != nil {
+		return nil, false
+	}
+	// the template declares its own package clause and imports; the helper is appended as a second file
+	t1 := filepath.Join(work, "zz_govc_replay_test.go")
+	t2 := filepath.Join(work, "zz_govc_replay_helper_test.go")
+	os.WriteFile(t1, body, 0o644)
+	pkgClause := "package " + pkg + "\n"
+	os.WriteFile(t2, []byte(pkgClause+string(helper)), 0o644)
+	abs := filepath.Join(repo, dir)
+	ov := map[string]map[string]string{"Replace": {
+		filepath.Join(abs, "zz_govc_replay_test.go"):        t1,
+		filepath.Join(abs, "zz_govc_replay_helper_test.go"): t2,
+	}}
+	oj, _ := json.Marshal(ov)
+	ovPath := filepath.Join(work, "overlay.json")
+	os.WriteFile(ovPath, oj, 0o644)
+	ctx, cancel := context.WithTimeout(context.Background(), 120*time.Second)
+	defer cancel()
+	cmd := exec.CommandContext(ctx, "bash", "-c", "ulimit -v 4000000; exec go test -overlay "+ovPath+" -vet=off -count=1 -timeout 60s -run '^TestGovcReplay$' .")
+	cmd.Dir = abs
+	cmd.Env = append(os.Environ(), "GOFLAGS=-mod=mod", "GOPROXY=off", "GOSUMDB=off", "GOTOOLCHAIN=local",
+		"GOVC_MODEL="+modelPath, "GOVC_OBLIGATION="+o.Name, "GOVC_KIND="+o.Kind)
+	var out bytes.Buffer
+	cmd.Stdout = &out
+	cmd.Stderr = &out
+	runErr := cmd.Run()
+	txt := out.String()
+	res := map[string]interface{}{"template": tmpl, "output": truncate(txt, 4000)}
+	switch {
+	case strings.Contains(txt, "GOVC-REPLAY-CONFIRMED"):
+		res["confirmed"] = true
+	case strings.Contains(txt, "GOVC-REPLAY-NOT-REPRODUCED"):
+		res["confirmed"] = false
+	case ctx.Err() != nil || strings.Contains(txt, "test timed out"):
+		// a hang of the real code on the model input is itself the confirmation for termination obligations
+		res["confirmed"] = o.Kind == "decreases"
+		res["note"] = "replay did not terminate within 60s"
+	default:
+		res["confirmed"] = false
+		if runErr != nil {
+			res["note"] = "replay harness error: " + runErr.Error()
+		}
+	}
+	return res, true
 }
